@@ -1,5 +1,7 @@
 import GeffModel.Proto
 import GeffModel.Ctc
+import GeffModel.CtcDir
+import GeffModel.CtcTable
 open Lean Geff Geff.Proto Geff.Ctc
 
 /-! request: {"ndim":2|3, "frames":[[{"l":label,"c":[tok,…]},…],…], "table":[[L,B,E,P],…]}
@@ -57,7 +59,54 @@ def handleSeq (j : Json) : Except String Json := do
   let dss ← (← (← j.getObjVal? "datasets").getArr?).toList.mapM parseDs
   return Json.mkObj [("steps", Json.arr ((dss.zip (convertSeq dss)).map (fun p => render p.1 p.2)).toArray)]
 
+/-! deepening: directory layer and table text -/
+def codes (s : String) : List Nat := s.toList.map Char.toNat
+def uncodes (l : List Nat) : String := String.ofList (l.map Char.ofNat)
+
+/-- {"op":"dir","exists":b,"listing":[name,…]} → {"exc":"FileNotFoundError"} | {"track":name,"frames":[name,…]}
+(`frames[k]` is the file that gets frame index `k`) -/
+def handleDir (j : Json) : Except String Json := do
+  let ex ← (← j.getObjVal? "exists").getBool?
+  let names ← (← (← j.getObjVal? "listing").getArr?).toList.mapM (fun x => x.getStr?)
+  match Geff.CtcDir.discover ex (names.map codes) with
+  | .fileNotFound => return Json.mkObj [("exc", "FileNotFoundError")]
+  | .ok f =>
+    return Json.mkObj [("track", Json.str (uncodes f.trackFile)),
+      ("frames", Json.arr (f.frames.map (fun p => Json.str (uncodes p.2))).toArray),
+      ("indices", Json.arr (f.frames.map (fun p => natJson p.1)).toArray)]
+
+/-- {"op":"text","text":s} → {"exc":"ValueError"} | {"unsupported":true} | {"rows":[[int,…],…],"table":[[L,B,E,P],…]} -/
+def handleText (j : Json) : Except String Json := do
+  let t ← (← j.getObjVal? "text").getStr?
+  match Geff.CtcTable.parseTable (codes t) with
+  | .valueError => return Json.mkObj [("exc", "ValueError")]
+  | .unsupported => return Json.mkObj [("unsupported", Json.bool true)]
+  | .ok rows =>
+    let tab := match Geff.CtcTable.tableOfText (codes t) with
+      | .ok rs => Json.arr (rs.map (fun r => Json.arr #[intJson r.L, intJson r.B, intJson r.E, intJson r.P])).toArray
+      | _ => Json.null
+    return Json.mkObj [("rows", Json.arr (rows.map (fun r => Json.arr (r.map intJson).toArray)).toArray), ("table", tab)]
+
+/-- {"op":"text-e2e","ndim":…,"frames":…,"text":s} → the conversion of the dataset whose table is the
+parsed text: answer of the plain request, or {"exc":"ValueError"} / {"unsupported":true} from the parser -/
+def handleTextE2E (j : Json) : Except String Json := do
+  let t ← (← j.getObjVal? "text").getStr?
+  match Geff.CtcTable.tableOfText (codes t) with
+  | .valueError =>
+    -- the frame loop runs before the table is read: "No nodes found" (also a ValueError) comes first
+    return Json.mkObj [("exc", "ValueError")]
+  | .unsupported => return Json.mkObj [("unsupported", Json.bool true)]
+  | .ok rows =>
+    let ndim ← (← j.getObjVal? "ndim").getNat?
+    let frames ← (← (← j.getObjVal? "frames").getArr?).toList.mapM
+      (fun fr => do (← fr.getArr?).toList.mapM getRegion)
+    let ds : Dataset := ⟨ndim, frames, rows⟩
+    return render ds (fromCtc ds)
+
 def handle (j : Json) : Except String Json := do
+  if let .ok (Json.str "dir") := j.getObjVal? "op" then return ← handleDir j
+  if let .ok (Json.str "text") := j.getObjVal? "op" then return ← handleText j
+  if let .ok (Json.str "text-e2e") := j.getObjVal? "op" then return ← handleTextE2E j
   if let .ok (Json.str "seg") := j.getObjVal? "op" then return ← handleSeg j
   if let .ok (Json.str "seq") := j.getObjVal? "op" then return ← handleSeq j
   let ds ← parseDs j
